@@ -32,7 +32,9 @@ def json_leaf(rng, retypable=True):
         s = rng.choice([gen.dom_string(rng), gen.word(rng), "two words", "it's", 'say "x" now', "back\\slash", "äö 日本", "",
                         # an odd number of embedded quotes, comment-like and URL-like content: all plain text inside a JSON string
                         '27" display', 'pipe 3/4" /* nominal */ steel', "src/*/test/*/conftest.py", "a // b", "http://x.org/y", "/* remark */",
-                        "tab\there", "line\nbreak", "\u2028sep"])
+                        "tab\there", "line\nbreak", "\u2028sep",
+                        # runs of blanks, brackets and braces inside strings (text a serialiser must not touch)
+                        "a  b", "ab   ", "   lead", "[m  s-1]", "x [Hs = 2.5 m,   Tp = 8 s] y", "{ a:  1 }", "tab\t\tgap", "q [ ]  r", "1,  2"])
         if not retypable and rng.random() < 0.12:
             # quote characters at the very ends (only compared on the formatter -> parser route: a JSON string is data)
             s = rng.choice(['5"', "'single quoted'", "rock 'n'", '"', "'", "''x''", '"dq"', "12''", "'", "it's'", '3\''])
